@@ -739,6 +739,17 @@ func (e *Engine) Open() error {
 	e.index.SetFieldSet(fields)
 
 	if e.WALEnabled {
+		// Replay the WAL before the WAL writer is opened.  Replay truncates a segment
+		// at the first entry it cannot read (a torn tail after a crash); a writer that
+		// was positioned at the old end of the file before the truncation would leave a
+		// hole in front of the entries it appends, and the next replay would stop at the
+		// hole and drop those (acknowledged) writes.
+		if err := e.reloadCache(); err != nil {
+			return err
+		}
+	}
+
+	if e.WALEnabled {
 		if err := e.WAL.Open(); err != nil {
 			return err
 		}
@@ -746,12 +757,6 @@ func (e *Engine) Open() error {
 
 	if err := e.FileStore.Open(); err != nil {
 		return err
-	}
-
-	if e.WALEnabled {
-		if err := e.reloadCache(); err != nil {
-			return err
-		}
 	}
 
 	e.Compactor.Open()
